@@ -140,6 +140,9 @@ func runC20(c C20Case, ev *Evid) (fs []Finding) {
 	}
 	nontrivial := len(c.L.Archives) >= 2 && covered > 0
 	cls := []string{fmt.Sprintf("max=%d", c.Max)}
+	if c.Now >= 1<<31 {
+		cls = append(cls, "epoch-high")
+	}
 	aligned := 0
 	for _, ar := range c.L.Archives {
 		if c.Now%ar.Step == 0 {
@@ -173,6 +176,9 @@ func TestC20(t *testing.T) {
 		Gen: func(t *rapid.T) C20Case {
 			l := genCLILayout(t)
 			now := genNowRealistic(t, l)
+			if rapid.IntRange(0, 7).Draw(t, "epochHigh") == 0 {
+				now = rapid.Int64Range(1<<31, 1<<32-4*l.MaxRet()-100000).Draw(t, "nowHigh") // 2038 .. 2106
+			}
 			switch rapid.IntRange(0, 3).Draw(t, "align") {
 			case 0:
 				now = alignDown(now, l.Archives[len(l.Archives)-1].Step)
